@@ -22,21 +22,35 @@ theorem signer_name_names_certificate_partial (n n' : Name) (hn : InjClass n) (h
 
 example : signerName [[⟨[2, 5, 4, 3], .str (ascii "a")⟩]] = ascii "`CN=a`" := by decide
 
-/-- **appmanifest_identity_sign_then_verify_partial.**  The identity comparison of `appmanifest.Verify` accepts what
-    `appmanifest.Sign` wrote for the same key, unless a namespace-prefixed `publicKeyToken` attribute shadows the token. -/
-theorem appmanifest_identity_sign_then_verify_partial {α} (sha1 : Bytes → Bytes) (m m' : Manifest α) (c : Loaded)
-    (h : signIdent sha1 m c = .ok m') (attrs : List XAttr) (ha : m.asi = some attrs)
-    (hp : NoPrefixedBefore "publicKeyToken" attrs) : verifyIdent sha1 m' c.leaf.key = .ok () :=
-  verifyIdent_signed sha1 m m' c h attrs ha hp
+/-- **appmanifest_identity_sign_then_verify.**  For every manifest, hash and certificate for which `Issuer()` and
+    `Chain()` agree (`IssuerAgrees`: the issuer whose key hash is written is carried, or nothing of that name is): the
+    identity comparisons of (the repaired) `appmanifest.Verify` accept what `appmanifest.Sign` wrote, and every RSA key
+    crypto/rsa can sign with passes `xmldsig.parsePublicKey`.  (The two XML signatures themselves: XSIG model.) -/
+theorem appmanifest_identity_sign_then_verify {α} (sha1 : Bytes → Bytes) (m m' : Manifest α) (c : Loaded)
+    (h : signIdent sha1 m c = .ok m') (hc : IssuerAgrees c) :
+    verifyIdent sha1 m' c.leaf.key (chainOf c) = .ok () ∧ (rsaUsable c.leaf.key = true → xmlKeyValueOk c.leaf.key = true) := by
+  refine ⟨verifyIdent_signed sha1 m m' c h hc, ?_⟩
+  intro hu
+  cases hk : c.leaf.key with
+  | rsa n e =>
+    rw [hk] at hu
+    simp only [rsaUsable, Bool.decide_and, Bool.and_eq_true, decide_eq_true_eq] at hu
+    simp [xmlKeyValueOk, hu.2]
+  | ec b x y => rfl
+  | other => rfl
 
-example : NoPrefixedBefore "publicKeyToken" [⟨"", "name", "App.exe"⟩, ⟨"", "publicKeyToken", "00"⟩] := by decide
+/-- hypotheses are satisfiable: a one-certificate loader whose leaf is its own issuer -/
+example : issuerCert ⟨⟨.ec 256 1 2, [0x30, 0], [0x30, 0]⟩, [⟨[0x30, 0], [0x30, 0], .ec 256 1 2, true⟩]⟩
+    = some ⟨[0x30, 0], [0x30, 0], .ec 256 1 2, true⟩ := by decide
 
-/-- the shadowing case: the token relic reads back is not the one it wrote -/
-theorem appmanifest_identity_shadowed_token :
-    attrValue "publicKeyToken" (createAttr "publicKeyToken" "0123456789abcdef" [⟨"q", "publicKeyToken", "x"⟩]) = "x" := by
+/-- the original looked the token up by local name: a prefixed attribute shadowed the one just written -/
+theorem appmanifest_identity_shadowed_token_orig :
+    attrValueOrig "publicKeyToken" (createAttr "publicKeyToken" "0123456789abcdef" [⟨"q", "publicKeyToken", "x"⟩]) = "x" ∧
+    attrValue "publicKeyToken" (createAttr "publicKeyToken" "0123456789abcdef" [⟨"q", "publicKeyToken", "x"⟩]) = "0123456789abcdef" := by
   decide
 
-/-- a 31-bit RSA exponent signs but does not verify (xmldsig.parsePublicKey refuses more than 30 bits) -/
-theorem appmanifest_exponent_gap : xmlKeyValueOk (.rsa 35 (2 ^ 31 - 1)) = false := by decide
+/-- a 31-bit RSA exponent signed but did not verify before the repair (more than 30 bits were refused) -/
+theorem appmanifest_exponent_gap_orig : xmlKeyValueOkOrig (.rsa 35 (2 ^ 31 - 1)) = false ∧ xmlKeyValueOk (.rsa 35 (2 ^ 31 - 1)) = true := by
+  decide
 
 end Relic.Props.C01
